@@ -12,25 +12,27 @@ func corpus() []*History {
 	var hs []*History
 	add := func(h *History) { hs = append(hs, h) }
 
-	// ---- C08-F2: the disqualification cache key ignores the grouping -----------
+	// ---- replays of the fixed finding C08-F2 (the disqualification cache key ignored the grouping;
+	// fix 3541d7b: a trie node keeps one entry per grouping): every call must get the difference of
+	// ITS OWN grouping, in both orders; a regression is a VIOLATION ------------------------------
 	f2u := []IndexD{
 		{Name: "", Pkgs: []PkgD{p("only1", "1.0"), p("both", "1.0")}},
 		{Name: "zz", Pkgs: []PkgD{p("both", "1.0")}},
 	}
 	multi := []ArchD{{"x", []int{0}}, {"y", []int{1}}}
 	single := []ArchD{{"x", []int{0, 1}}}
-	add(&History{Note: "C08-F2 replay: {x:[i0], y:[i1]} then {x:[i0,i1]}, world [only1]: the single-architecture call fails, a fresh process succeeds",
-		Class: "corpus/finding/F2", Universe: f2u, Calls: []CallD{
+	add(&History{Note: "fixed 3541d7b (was C08-F2): {x:[i0], y:[i1]} then {x:[i0,i1]}, world [only1]: the single-architecture call used to fail where a fresh process succeeds",
+		Class: "corpus/fixed/F2", Universe: f2u, Calls: []CallD{
 			{[]int{0}, []string{"only1"}, multi}, {[]int{0, 1}, []string{"only1"}, single}, {[]int{0, 1}, []string{"both"}, single}}})
-	add(&History{Note: "C08-F2 replay, other order: the two-architecture call wrongly succeeds",
-		Class: "corpus/finding/F2", Universe: f2u, Calls: []CallD{
+	add(&History{Note: "fixed 3541d7b (was C08-F2), other order: the two-architecture call used to succeed wrongly",
+		Class: "corpus/fixed/F2", Universe: f2u, Calls: []CallD{
 			{[]int{0, 1}, []string{"only1"}, single}, {[]int{0}, []string{"only1"}, multi}, {[]int{0}, []string{"both"}, multi}}})
 	f2v := []IndexD{
 		{Name: "", Pkgs: []PkgD{p("only1", "1.0"), p("both", "1.0")}},
 		{Name: "", Pkgs: []PkgD{p("both", "1.0")}},
 	}
-	add(&History{Note: "C08-F2 with equal index names: whether the keys collide depends on the iteration order of allArchs",
-		Class: "corpus/finding/F2-ambiguous", Universe: f2v, Calls: []CallD{
+	add(&History{Note: "fixed 3541d7b (was C08-F2) with equal index names: the trie PATH still depends on the iteration order of allArchs (a miss more or less), the answers no longer do",
+		Class: "corpus/fixed/F2-ambiguous", Universe: f2v, Calls: []CallD{
 			{[]int{0}, []string{"only1"}, multi}, {[]int{0, 1}, []string{"only1"}, single}, {[]int{0, 1}, []string{"only1"}, single}}})
 
 	// ---- replays of the fixed findings C08-F1 (install_if order) and C08-F3 (chained
